@@ -78,6 +78,7 @@ type stepRecord struct {
 	JS      map[string]interface{}
 	Kind    string
 	NonTriv bool
+	Obs     string // term produced by the active step observer
 }
 
 type Scen struct {
@@ -332,6 +333,9 @@ func (sc *Scen) doStep(sp stepSpec) (err error, panicked bool) {
 		Effects: append([]string{}, e.effects...), Kind: sp.kind, NonTriv: len(e.effects) > 1,
 		JS: map[string]interface{}{"input": sp.kind, "state_after": string(post.Current), "removed": removed, "effects": e.effJSON},
 	}
+	if activeObserver != nil {
+		rec.Obs = activeObserver(sc, &rec)
+	}
 	sc.steps = append(sc.steps, rec)
 	return err, panicked
 }
@@ -341,14 +345,29 @@ func (sc *Scen) isMaker() bool { return sc.role == "out_receiver" || sc.role == 
 func hexType(t messages.MessageType) string { return messages.MessageTypeToHexString(t) }
 
 type fsmOpts struct {
-	out     string
-	seed    uint64
-	n       int
-	procs   int
-	monitor string // Coq function fsm_case -> bool evaluated on the observed scenario
-	imports string // extra "From PS Require Import ..." line for the monitor
-	focus   string // bias of the generator (property id), "" = uniform
+	out      string
+	seed     uint64
+	n        int
+	procs    int
+	monitor  string // Coq function fsm_case -> bool evaluated on the observed scenario
+	imports  string // extra "From PS Require Import ..." line for the monitor
+	focus    string // bias of the generator (property id), "" = uniform
+	observer string // name of a registered step observer ("" = none)
+	casetype string // Coq type of one case (default fsm_case)
+	check    string // Coq correspondence function (default fsm_check)
 }
+
+// Step observers: per-property side observations of a step that the shared effect
+// vocabulary does not carry (e.g. a byte scan of the messages sent). An observer
+// returns one Coq term per step; with -observer NAME every case becomes the pair
+// (scenario, [obs_1; ...; obs_n]) and -casetype / -check must be given accordingly.
+type stepObserver func(sc *Scen, rec *stepRecord) string
+
+var stepObservers = map[string]stepObserver{}
+
+func registerObserver(name string, f stepObserver) { stepObservers[name] = f }
+
+var activeObserver stepObserver
 
 func init() {
 	register("fsm", "drive the real swap state machines; emit step-level correspondence cases", func(args []string) error {
@@ -360,9 +379,19 @@ func init() {
 		mon := fs.String("monitor", "fsm_monitor", "Coq monitor function (fsm_case -> bool)")
 		imp := fs.String("imports", "", "extra Coq import line for the monitor")
 		focus := fs.String("focus", "", "generator focus (property id)")
+		obs := fs.String("observer", "", "registered step observer")
+		ct := fs.String("casetype", "fsm_case", "Coq type of one case")
+		chk := fs.String("check", "fsm_check", "Coq correspondence function")
 		fs.Parse(args)
 		os.Setenv("PAYMENT_RETRY_TIME", "2")
-		return runFsm(fsmOpts{*out, *seed, *n, *procs, *mon, *imp, *focus})
+		if *obs != "" {
+			f, ok := stepObservers[*obs]
+			if !ok {
+				return fmt.Errorf("unknown observer %q", *obs)
+			}
+			activeObserver = f
+		}
+		return runFsm(fsmOpts{*out, *seed, *n, *procs, *mon, *imp, *focus, *obs, *ct, *chk})
 	})
 }
 
@@ -399,7 +428,7 @@ func runFsm(o fsmOpts) error {
 	os.RemoveAll(dbdir)
 
 	cf := NewCaseFile("From PS Require Import Model.Data Model.Actions Model.Fsm Gen.Tables Gen.ConstsSwap Model.FsmCorr.\n"+o.imports,
-		"fsm_case", "fsm_check", o.monitor)
+		o.casetype, o.check, o.monitor)
 	for i, sc := range results {
 		if sc == nil {
 			continue
@@ -419,6 +448,13 @@ func runFsm(o fsmOpts) error {
 		}
 		sort.Strings(dec)
 		term := fmt.Sprintf("mkScenario %s %s %s", tableName(sc.role), CoqList(dec), "[\n    "+strings.Join(steps, ";\n    ")+"]")
+		if activeObserver != nil {
+			obs := []string{}
+			for _, st := range sc.steps {
+				obs = append(obs, st.Obs)
+			}
+			term = "(" + term + ", " + CoqList(obs) + ")"
+		}
 		final := ""
 		if sc.held != nil {
 			final = string(sc.held.Current)
